@@ -425,14 +425,15 @@ class KMeansStub:
     """predict(row) = KM(random_state, training matrix, row) in [0, k); labels_ = predict(training rows)"""
     KIND = 'kmeans'
 
-    def __init__(self, n_clusters=8, random_state=None, n_init='auto', **kw):
+    def __init__(self, n_clusters=8, random_state=None, n_init='auto', copy_x=True, **kw):
         self.n_clusters = n_clusters
         self.random_state = random_state
         self.n_init = n_init
+        self.copy_x = copy_x
         self._fitted = None
 
     def __deepcopy__(self, memo):
-        c = type(self)(self.n_clusters, copy.deepcopy(self.random_state, memo), self.n_init)
+        c = type(self)(self.n_clusters, copy.deepcopy(self.random_state, memo), self.n_init, self.copy_x)
         c._fitted = self._fitted
         if hasattr(self, 'labels_'):
             c.labels_ = self.labels_.copy()
@@ -456,6 +457,13 @@ class KMeansStub:
                 rs = z3.ToInt(rs)
         self._fitted = (X.shape, _matkey(X), rs)
         self.labels_ = self.predict(X)
+        if not self.copy_x and self.KIND == 'kmeans' and isinstance(X, np.ndarray) and X.dtype == object \
+                and X.flags.c_contiguous and X.flags.writeable:
+            # sklearn: "if copy_x is False the original data is modified and put back before the function returns, but
+            # small numerical differences may be introduced": the array that was handed in holds arbitrary new values
+            c = cur()
+            for idx in np.ndindex(X.shape):
+                X[idx] = X[idx] + c.fresh('kmeans_copy_x_perturbation', 'Real')
         return self
 
     def predict(self, X):
